@@ -57,37 +57,37 @@ type Sample struct {
 }
 
 type ProgramResult struct {
-	Pkg           string         `json:"pkg"`
-	Harness       string         `json:"harness"`
-	Params        map[string]int `json:"params"`
-	Status        string         `json:"status"` // ok | violation | inconclusive | error
-	Paths         int            `json:"paths"`
-	PathsOK       int            `json:"paths_completed"`
-	Exhausted     int            `json:"paths_exhausted"`
-	Pruned        int            `json:"paths_pruned_by_assume"`
-	Decisions     int            `json:"decisions"`
-	Fresh         int            `json:"fresh_decisions"`
-	Steps         int64          `json:"ssa_steps"`
-	MaxPathSteps  int64          `json:"max_path_steps"`
-	Queries       int            `json:"solver_queries"`
-	Sat           int            `json:"sat"`
-	Unsat         int            `json:"unsat"`
-	Unknown       int            `json:"unknown"`
-	SolverS       float64        `json:"solver_s"`
-	WallS         float64        `json:"wall_s"`
-	AssertsSym    int            `json:"assert_queries"`
-	AssertsConc   int            `json:"asserts_concrete"`
-	SymFmt        int            `json:"fmt_placeholders"`
-	Reach         map[string]int `json:"reach"`
-	Assumes       map[string]int `json:"assume_pruned"`
-	Inconclusive  map[string]int `json:"inconclusive,omitempty"`
-	Violations    []violation    `json:"violations,omitempty"`
-	Samples       []Sample       `json:"samples,omitempty"`
-	FuncsRepo     []string       `json:"functions_repo"`
-	FuncsDep      int            `json:"functions_dependency"`
-	FuncsIntr     []string       `json:"functions_intrinsic"`
-	FuncsHarness  []string       `json:"functions_harness"`
-	Error         string         `json:"error,omitempty"`
+	Pkg          string         `json:"pkg"`
+	Harness      string         `json:"harness"`
+	Params       map[string]int `json:"params"`
+	Status       string         `json:"status"` // ok | violation | inconclusive | error
+	Paths        int            `json:"paths"`
+	PathsOK      int            `json:"paths_completed"`
+	Exhausted    int            `json:"paths_exhausted"`
+	Pruned       int            `json:"paths_pruned_by_assume"`
+	Decisions    int            `json:"decisions"`
+	Fresh        int            `json:"fresh_decisions"`
+	Steps        int64          `json:"ssa_steps"`
+	MaxPathSteps int64          `json:"max_path_steps"`
+	Queries      int            `json:"solver_queries"`
+	Sat          int            `json:"sat"`
+	Unsat        int            `json:"unsat"`
+	Unknown      int            `json:"unknown"`
+	SolverS      float64        `json:"solver_s"`
+	WallS        float64        `json:"wall_s"`
+	AssertsSym   int            `json:"assert_queries"`
+	AssertsConc  int            `json:"asserts_concrete"`
+	SymFmt       int            `json:"fmt_placeholders"`
+	Reach        map[string]int `json:"reach"`
+	Assumes      map[string]int `json:"assume_pruned"`
+	Inconclusive map[string]int `json:"inconclusive,omitempty"`
+	Violations   []violation    `json:"violations,omitempty"`
+	Samples      []Sample       `json:"samples,omitempty"`
+	FuncsRepo    []string       `json:"functions_repo"`
+	FuncsDep     int            `json:"functions_dependency"`
+	FuncsIntr    []string       `json:"functions_intrinsic"`
+	FuncsHarness []string       `json:"functions_harness"`
+	Error        string         `json:"error,omitempty"`
 }
 
 func main() {
@@ -388,6 +388,21 @@ func (pl *pool) runProgram(ps ProgramSpec) ProgramResult {
 	}
 	var wg sync.WaitGroup
 	var mu sync.Mutex
+	stopProgress := make(chan struct{})
+	go func() {
+		tk := time.NewTicker(15 * time.Second)
+		defer tk.Stop()
+		for {
+			select {
+			case <-stopProgress:
+				return
+			case <-tk.C:
+				q.mu.Lock()
+				fmt.Fprintf(os.Stderr, "[gosym]   ... %s: %d paths started, %d queued, %d active, %.0fs\n", ps.Harness, q.paths, len(q.stack), q.active, time.Since(t0).Seconds())
+				q.mu.Unlock()
+			}
+		}
+	}()
 	var total Stats
 	var viols []violation
 	var samples []Sample
@@ -456,6 +471,7 @@ func (pl *pool) runProgram(ps ProgramSpec) ProgramResult {
 		}(w)
 	}
 	wg.Wait()
+	close(stopProgress)
 	res.Paths = total.Paths
 	res.PathsOK = total.PathsOK
 	res.Exhausted = total.Exhausted
